@@ -80,6 +80,8 @@ def run(ctx):
     explanation_configuration(ctx, 'C18.R6')
     derived_violation_flags(ctx, 'C18.R7')
     _who_builds_metadata(ctx)
+    from .c02 import union_members
+    union_members(ctx, 'C18.R9')      # overrides expand into unions: the flattening must keep each member under its own parent metadata
 
     # ---- R2 ----------------------------------------------------------------------
     ctx.rule('C18.R2', 'each hint_sane= argument of enqueue_hint_child_sane and each HintDataError(…) argument is defined '
